@@ -60,4 +60,18 @@ PROPS = {
         "min_counters": {"sequences.enumerated": 5461, "variants.admitted-wrong": 1000, "variants.inadmissible-wrong": 1000},
         "exhaustive_all": True,
     },
+    "C14": {
+        "title": "Encoding respects the caller's buffer and the 64 KiB message limit",
+        "profiles": ["dev", "release"],
+        "crash_is_violation": True,
+        "rule": ("needed length and canonical bytes from the reference codec; (a) every buffer length 0..needed+8 for "
+                 "generated messages <= 300 bytes with prefill 0x00/0xFF/random, (b) 64 sampled lengths for larger "
+                 "messages, (c) attribute totals 65,500..65,532 step 4 assembled from DATA/PADDING/SOFTWARE/"
+                 "MOBILITY-TICKET of varied sizes with and without a tail: must encode (and decode back), (d) totals "
+                 "65,536..65,560 and 66,000..200,000: must be rejected, (e) single attribute values > 65,535 bytes. "
+                 "Both the dev build (overflow checks on) and the release build (wrap-around) are run. Non-trivial = "
+                 ">=1 attribute; distinct = hash of the canonical bytes."),
+        "assumptions": [STABLE],
+        "min_counters": {"fits.ok": 1000, "short.err": 1000, "oversize.err": 10},
+    },
 }
